@@ -36,6 +36,15 @@ CHECKS["C02"] = dict(
          "transparent; vacuous clauses (no value compared) are not constrained; error-terminated evaluations are exempt.",
     ref="DESIGN.md §6 P-C02")
 
+CHECKS["C04"] = dict(
+    technique="runtime monitoring: metamorphic order/repetition monitor with hook-observed memoisation histories",
+    text="Random base programs that share variables and named references are evaluated together with up to ~25 order/repetition "
+         "transforms each (all permutations of small rule bodies and rule orders, shuffled alternatives, duplicated lines, alternatives "
+         "and rules, early/late references) on 2-3 documents; rule->status maps must agree. The verif-hooks event stream shows "
+         "how many distinct variable-resolution orders and rule-status hit/miss patterns were actually exercised.",
+    note="Groups where any variant errors are inconclusive (the property's proviso). Trusts the printer/parser round trip of the generated AST.",
+    ref="DESIGN.md §6 P-C04")
+
 PENDING = {}
 
 
